@@ -4,7 +4,7 @@
    forall i < rows M, mvprod (rows M) (ent M) (fun k => nth k x zero) i = nth i b zero. *)
 From Coq Require Import List Arith ZArith Lia.
 From OV Require Import Base.Panic Base.Arith Base.Flat Model.Vector Model.Matrix Model.Solve Inst.QcInst
-  Proofs.Matrix Proofs.SolveBase Proofs.SolveBack Proofs.SolveGauss Proofs.Solve Proofs.SolveComplete Proofs.SolveQc.
+  Proofs.Matrix Proofs.SolveBase Proofs.SolveBack Proofs.SolveGauss Proofs.Solve Proofs.SolveComplete Proofs.SolveQc Proofs.SolveR.
 Import ListNotations.
 
 (* C01, Gaussian elimination half: whatever solve_basic returns solves the system (any field, any size). *)
@@ -125,3 +125,23 @@ Check solve_basic_correct_Qc : forall (M : matrix AQ) (b : list AQ),
     (forall y, length y = rows M ->
        (forall i, i < rows M -> mvprod (rows M) (ent M) (fun k => nth k y zero) i = nth i b zero) -> y = x).
 Print Assumptions solve_basic_correct_Qc.
+
+(* Corollary over the real numbers (AR of Proofs/SolveR.v: R with Rabs and the classical order/equality tests),
+   the idealisation of the f64 element type: a real system with a left inverse is solved, uniquely.
+   Depends on the standard library's axioms of the reals only (allow-listed). *)
+Theorem solve_basic_correct_R : forall (M : matrix AR) (b : list AR),
+  wf M -> rows M = cols M -> length b = rows M -> 1 <= rows M ->
+  (exists N : nat -> nat -> AR, left_inverse (rows M) N (ent M)) ->
+  exists x, solve_basic M b = Ok x /\ length x = rows M /\
+    (forall i, i < rows M -> mvprod (rows M) (ent M) (fun k => nth k x zero) i = nth i b zero) /\
+    (forall y, length y = rows M ->
+       (forall i, i < rows M -> mvprod (rows M) (ent M) (fun k => nth k y zero) i = nth i b zero) -> y = x).
+Proof. exact solve_basic_correct_R_lemma. Qed.
+Check solve_basic_correct_R : forall (M : matrix AR) (b : list AR),
+  wf M -> rows M = cols M -> length b = rows M -> 1 <= rows M ->
+  (exists N : nat -> nat -> AR, left_inverse (rows M) N (ent M)) ->
+  exists x, solve_basic M b = Ok x /\ length x = rows M /\
+    (forall i, i < rows M -> mvprod (rows M) (ent M) (fun k => nth k x zero) i = nth i b zero) /\
+    (forall y, length y = rows M ->
+       (forall i, i < rows M -> mvprod (rows M) (ent M) (fun k => nth k y zero) i = nth i b zero) -> y = x).
+Print Assumptions solve_basic_correct_R.
